@@ -9,6 +9,8 @@ type vhExec struct {
 	ruleId   string
 	code     string
 	bindings map[string]interface{}
+	ctxLoc   string // the location the action's environment is bound to (ctx.GetLoc())
+	argLoc   string // the location handed to the interpreter
 }
 
 type vhInterp struct {
@@ -21,7 +23,14 @@ func (i *vhInterp) GetThunk(ctx *Context, loc *Location, bs Bindings, a Action) 
 	return func() (interface{}, error) {
 		code, _ := a.Code.(string)
 		rid, _ := bs["?ruleId"].(string)
-		i.execs = append(i.execs, vhExec{ruleId: rid, code: code, bindings: vsnapshot(map[string]interface{}(bs)).(map[string]interface{})})
+		e := vhExec{ruleId: rid, code: code, bindings: vsnapshot(map[string]interface{}(bs)).(map[string]interface{})}
+		if l := ctx.GetLoc(); l != nil {
+			e.ctxLoc = l.Name
+		}
+		if loc != nil {
+			e.argLoc = loc.Name
+		}
+		i.execs = append(i.execs, e)
 		if i.fail != nil && i.fail[code] {
 			return nil, NewSyntaxError("action failed: " + code)
 		}
